@@ -23,6 +23,14 @@ static_assert(GLM_CONFIG_SWIZZLE == GLM_SWIZZLE_OPERATOR, "this stage was config
 static_assert(GLM_CONFIG_SWIZZLE == GLM_SWIZZLE_FUNCTION, "this stage was configured for member-function swizzles (GLM_FORCE_SWIZZLE, no language extensions)");
 #endif
 
+// The visitors below are large and instantiated once per proxy type; they are harness code, so they are kept out of the
+// optimiser (GLM's own functions are still compiled at the stage's optimisation level, as separate functions).
+#if defined(__clang__)
+#define C17_NOOPT __attribute__((optnone, noinline))
+#else
+#define C17_NOOPT __attribute__((optimize("O0"), noinline))
+#endif
+
 namespace c17s {
 
 enum Impl { I_FUNCTION = 0, I_FREE = 1, I_OPERATOR = 2, I_MEMBER = 3 };
@@ -76,7 +84,7 @@ template <class V, int N, int IMPL> struct ReadK {
 	typedef glm::vec<N, T, Q> R;
 	Case<V>* cs;
 
-	template <class S> void operator()(const S& s) const {
+	template <class S> C17_NOOPT void operator()(const S& s) const {
 		pbt::Ctx& c = cs->c;
 		const c17::Entry& e = cs->e;
 		const T* src = cs->src;
@@ -157,7 +165,7 @@ template <class V, int N> struct WriteK {
 	typedef glm::vec<N, T, Q> R;
 	Case<V>* cs;
 
-	template <class S> void operator()(S& s) const {
+	template <class S> C17_NOOPT void operator()(S& s) const {
 		pbt::Ctx& c = cs->c;
 		const c17::Entry& e = cs->e;
 		const int* idx = cs->idx;
